@@ -29,6 +29,8 @@ func init() {
 		}
 		ruleReadDBILoop(c, "C01-R3", false)
 		ruleSendDump(c, "C01-R3", "C01-R3", "C01-R5")
+		ruleCollectionExhausted(c, "C01-R3", fnSendTxn, collDBINames, nil)
+		ruleCollectionExhausted(c, "C01-R4", fnLoadTxn, collSnapDBIs, nil)
 		ruleLoadBody(c, "C01-R4", "C01-R4", "C01-R4", "C01-R4", "C01-R4")
 		ruleUpdateLoop(c, "C01-R4")
 		ruleCaptureBeforeProject(c, "C01-R5")
@@ -346,6 +348,7 @@ func init() {
 		ruleLimitScannerResume(c, "C13-R6")
 		c.Rule("C13-R7", "SLICE-ERROR-ABORTS: a failed slice transaction ends the pass with an error before the resume flag is looked at")
 		ruleSweepSliceErrors(c, "C13-R7")
+		ruleCollectionExhausted(c, "C13-R7", fnSweep, collLocalNames, nil)
 		ruleRawReadWriters(c, "C13-R5")
 	})
 }
@@ -431,6 +434,8 @@ func init() {
 		ruleSendDump(c, "C11-R7", "C11-R6", "C11-R7")
 		ruleMainToShadow(c, "C11-R7", "C11-R7", "C11-R4")
 		ruleShadowToMain(c, "C11-R7", "C11-R7")
+		ruleCollectionExhausted(c, "C11-R7", fnMainToSh, collDBINames, nil)
+		ruleCollectionExhausted(c, "C11-R7", fnShToMain, collDBINames, nil)
 		ruleSyncedIdBound(c, "C11-R7")
 		ruleRawReadRestored(c, "C11-R8")
 		ruleRawReadWriters(c, "C11-R8")
